@@ -5,3 +5,4 @@ pub mod c06;
 pub mod c12;
 pub mod c13;
 pub mod c15;
+pub mod c18;
